@@ -96,7 +96,28 @@ def E7():
             "libs": [{"name": "la", "defs": [xa]}, {"name": "lb", "defs": [xb]}, {"name": "work", "defs": [T]}]}
 
 
-BASES = {"E1": E1, "E2": E2, "E3": E3, "E4": E4, "E5": E5, "E6": E6, "E7": E7}
+def E9():
+    """dependency triangles among cells (X2 uses Y2 and Z2, Z2 uses Y2) and among libraries (work uses ly and lz,
+    lz uses ly); a bus net whose name starts with a digit (identifier &2x_i_)."""
+    y = {"name": "Y", "ports": [port("p", 1, "in")], "insts": [], "nets": []}
+    z = {"name": "Z", "ports": [port("p", 1, "in")], "insts": [{"name": "y0", "ref": ["ly", "Y"]}],
+         "nets": [{"name": "n", "bits": [[["P", "p", 0], ["I", "y0", "p", 0]]]}]}
+    y2 = {"name": "Y2", "ports": [port("p", 1, "in")], "insts": [], "nets": []}
+    z2 = {"name": "Z2", "ports": [port("p", 1, "in")], "insts": [{"name": "a", "ref": ["work", "Y2"]}],
+          "nets": [{"name": "n", "bits": [[["P", "p", 0], ["I", "a", "p", 0]]]}]}
+    x2 = {"name": "X2", "ports": [port("p", 1, "in")],
+          "insts": [{"name": "b", "ref": ["work", "Y2"]}, {"name": "c", "ref": ["work", "Z2"]},
+                    {"name": "d", "ref": ["ly", "Y"]}, {"name": "e", "ref": ["lz", "Z"]}],
+          "nets": [{"name": "n", "bits": [[["P", "p", 0], ["I", "b", "p", 0], ["I", "c", "p", 0], ["I", "d", "p", 0], ["I", "e", "p", 0]]]}]}
+    T = {"name": "top", "ports": [port("i", 1, "in"), port("q", 2, "in")],
+         "insts": [{"name": "x", "ref": ["work", "X2"]}],
+         "nets": [{"name": "w", "bits": [[["P", "i", 0], ["I", "x", "p", 0]]]},
+                  {"name": "2x", "bits": [[["P", "q", 0]], [["P", "q", 1]]]}]}
+    return {"name": "e9", "top": ["work", "top"], "top_name": "top",
+            "libs": [{"name": "ly", "defs": [y]}, {"name": "lz", "defs": [z]}, {"name": "work", "defs": [y2, z2, x2, T]}]}
+
+
+BASES = {"E1": E1, "E2": E2, "E3": E3, "E4": E4, "E5": E5, "E6": E6, "E7": E7, "E9": E9}
 
 
 def bus_renderings(width):
